@@ -5,6 +5,7 @@
 //! deterministically, and the library's own decryption must agree with the exact phase.
 
 use crate::sch::*;
+use crate::sp::sp;
 use dashu_int::IBig;
 use poulpy_core::{
     EncryptionLayout, GLWECompressedEncryptSk, GLWEDecrypt, GLWEEncryptPk, GLWEEncryptSk, GLWEPublicKeyGenerate, LWEDecrypt, LWEEncryptSk,
@@ -105,7 +106,10 @@ fn fail(c: &Case, what: &str, detail: String) -> Verdict {
     Verdict::fail(format!("{v}|{what}"), format!("backend={} variant={v}: {detail}\ncase={c:?}", c.be.name()))
 }
 
-fn run_glwe<B: FullBackend>(m: &Module<B>, c: &Case) -> Verdict {
+fn run_glwe<B: FullBackend>(m: &Module<B>, c: &Case) -> Verdict
+where
+    poulpy_hal::layouts::Scratch<B>: poulpy_hal::api::ScratchFromBytes<B>,
+{
     let n = m.n();
     let b = c.base2k as usize;
     let k = k_of(c);
@@ -147,7 +151,7 @@ fn run_glwe<B: FullBackend>(m: &Module<B>, c: &Case) -> Verdict {
     let mut budget = Dyadic { num: e_fresh.clone(), exp: e_exp };
     match c.variant {
         0 => m.glwe_encrypt_sk(&mut ct, &pt, &skp, &enc, &mut xe, &mut xa, scratch.borrow()),
-        1 => m.glwe_encrypt_zero_sk(&mut ct, &skp, &enc, &mut xe, &mut xa, scratch.borrow()),
+        1 => m.glwe_encrypt_zero_sk(&mut ct, &skp, &enc, &mut xe, &mut xa, sp("glwe_encrypt_zero_sk", m.glwe_encrypt_sk_tmp_bytes(&lay), &mut scratch)),
         2 | 3 => {
             let mut pk = GLWEPublicKey::alloc_from_infos(&lay);
             m.glwe_public_key_generate(&mut pk, &skp, &enc, &mut xe, &mut xa);
@@ -175,7 +179,7 @@ fn run_glwe<B: FullBackend>(m: &Module<B>, c: &Case) -> Verdict {
             if c.variant == 2 {
                 m.glwe_encrypt_pk(&mut ct, &pt, &pkp, &enc, &mut xu, &mut xe, scratch.borrow());
             } else {
-                m.glwe_encrypt_zero_pk(&mut ct, &pkp, &enc, &mut xu, &mut xe, scratch.borrow());
+                m.glwe_encrypt_zero_pk(&mut ct, &pkp, &enc, &mut xu, &mut xe, sp("glwe_encrypt_zero_pk", m.glwe_encrypt_pk_tmp_bytes(&lay), &mut scratch));
             }
             // re-derive u with the public sampling functions (same seed, same distribution)
             let mut u = ScalarZnx::alloc(n, 1);
@@ -262,7 +266,10 @@ fn run_glwe<B: FullBackend>(m: &Module<B>, c: &Case) -> Verdict {
     Verdict::pass(nt, &cl)
 }
 
-fn run_lwe<B: FullBackend>(m: &Module<B>, c: &Case) -> Verdict {
+fn run_lwe<B: FullBackend>(m: &Module<B>, c: &Case) -> Verdict
+where
+    poulpy_hal::layouts::Scratch<B>: poulpy_hal::api::ScratchFromBytes<B>,
+{
     let b = c.base2k as usize;
     let k = k_of(c);
     let n_lwe = c.n_lwe as usize;
